@@ -11,7 +11,7 @@ claimed={
  "C10":("after every accepted consist step: conservation of demand, per-unit capability, sign agreement, regen placement and the battery-first rule, over generated consists/policies/histories", GEN+" vs validity predicate on the split"),
  "C03":("every saved step of generated speed-limited runs (whole path, link-by-link extension, and walk_timed_path over the dispatcher's own timed paths of generated corridor scenarios) is compared with an independently computed posted limit, the limit in force, monotone position and the stopping window; unwinds are violations; termination of walk() on a stalled train is probed in a child process", GEN+" vs independent posted-limit model + invariants over the history"),
  "C04":("every dispatcher snapshot (verif_hooks observer) and the final plan of generated corridor scenarios are checked for overlapping occupancy of a physical segment by opposing trains, of mutually exclusive segments, order changes inside a segment and the configured headway; plus a black-box check on the returned timed paths", GEN+" vs interval-overlap reference model over hook snapshots and final plan"),
- "C05":("returned plans are validated (one route per train, origin/departure/destination, contiguity, monotone times, never faster than free-running), errors must name trains, any unwind or abort (incl. debug assertions and std unsafe-precondition checks) is a violation; supervisor/worker processes contain aborts", GEN+" vs plan validity predicate; abort containment by process isolation"),
+ "C05":("returned plans are validated (one route per train, origin/departure/destination, contiguity, monotone times, never faster than free-running), errors must name trains and a reported occupancy conflict must be with a train that really blocks that segment (hook phase Failed), dispatch must not repeat an identical state for ever (livelock proof in the observer), any unwind or abort (incl. debug assertions and std unsafe-precondition checks) is a violation; supervisor/worker processes contain aborts", GEN+" vs plan validity predicate; abort containment by process isolation"),
  "C06":("the built path profile is compared point by point with an independent walk of the network's own elevation / heading / catenary points, with count cross-checks, one-shot vs incremental equality, a mirror-image metamorphic relation and rejection of corrupted routes", GEN+" vs reference model + differential (one-shot vs partitions) + metamorphic (mirror)"),
  "C07":("every saved step's six resistance forces, weight, front elevation and front/rear grades are recomputed from an independent walk of the network's own points and from the car list", GEN+" vs reference model (elevation / curve walk)"),
  "C11":("per saved step and at the end, power/energy numbers at train, consist and summed-locomotive level and the annualised trip getters are compared", GEN+" vs cross-level ledger"),
